@@ -56,7 +56,8 @@ Inductive api :=
 | ApiDiscStart | ApiDiscStop
 | ApiAnnStart | ApiAnnStop
 | ApiAnnounce (i : N) | ApiStopAnnounce (i : N) (send_stop : bool)
-| ApiQueueSend (e : sdentry) (d : dest) | ApiSendSd (es : list sdentry) (d : dest).
+| ApiQueueSend (e : sdentry) (d : dest) | ApiSendSd (es : list sdentry) (d : dest)
+| ApiSetReject (i : N) (egs : list N).     (* the server listener of instance i changes its mind: from now on it rejects these eventgroup ids *)
 
 Inductive handle :=
 | HDatagram (from : addr) (mc : bool) (data : bytes)
